@@ -428,6 +428,9 @@ def execute(pdict, file_names=(), sched=(None, 0), prompt=True, refuse_at=None, 
         s = hb_solver.Solver(store, hb_forms.available_forms[year], prompt=pf)
         try:
             ok = s.solve(list(req))
+        except (core.RunTimeout, core.BudgetExceeded) as e:
+            e.monitor, e.rec = m, rec          # what the session did before it was cut off
+            raise
         except Exception as e:
             run.outcome = 'abort'
             run.exc = (type(e).__name__, str(e)[:300])
@@ -706,10 +709,51 @@ def closure_from_history(pdict, run):
     return out
 
 
+def input_read_findings(pdict, events, texts):
+    """Every value a line received for an input must be what the text supplied under THAT name denotes (judged after the
+    run, on fresh form objects, so that nothing is created while the solver works).  texts: name -> supplied text."""
+    F = simrun.F
+    cat = catalogue(pdict['year'])
+    objs = {}
+    out = []
+    seen = set()
+    for e in events:
+        if e[0] != 'RI' or e[3][0] != 'ok' or e[2] in seen:
+            continue
+        q = e[2]
+        seen.add(q)
+        txt = texts(q) if callable(texts) else texts.get(q)
+        if txt is None:
+            continue
+        form, inst, base = split_name(q)
+        if form not in cat or base not in cat[form]['inputs']:
+            continue
+        fi = q.split('.')[0]
+        if fi not in objs:
+            try:
+                objs[fi] = {i.base_name(): i for i in cat[form]['cls'](instance=inst).inputs()}
+            except Exception:
+                objs[fi] = {}
+        i = objs[fi].get(base)
+        try:
+            if i is None or not i.valid(txt):
+                continue
+            exp = core.norm(i.value(txt))
+        except Exception:
+            continue
+        if exp != e[3][1]:
+            out.append(F('C03', 'C03.input', 'other-inputs-value',
+                         f'{e[1]} read input {q} and received {e[3][1]}, but the text supplied for {q} is {txt!r} ({exp})'))
+            if len(out) >= 3:
+                break
+    return out
+
+
 def judge(pdict, run, r1):
     """shipped-world oracles: common ones + value re-derivation + read-history closure + types"""
     F = simrun.F
     out = simrun.judge_common(run, r1)
+    out += input_read_findings(pdict, run.rec.events, run.input_texts)
     cat = catalogue(pdict['year'])
     m = run.monitor
     if run.outcome in ('solved', 'failed'):
